@@ -64,6 +64,14 @@ pub struct Outcome<S: SeqSpec + ?Sized> {
     pub nontrivial: bool,
 }
 
+pub static PROF: [std::sync::atomic::AtomicU64; 4] = [std::sync::atomic::AtomicU64::new(0), std::sync::atomic::AtomicU64::new(0), std::sync::atomic::AtomicU64::new(0), std::sync::atomic::AtomicU64::new(0)];
+
+/// mean microseconds per transaction: (snapshot restore, execution, post-checks), number of transactions
+pub fn profile() -> (u64, u64, u64, u64) {
+    let n = PROF[3].load(std::sync::atomic::Ordering::Relaxed).max(1);
+    (PROF[0].load(std::sync::atomic::Ordering::Relaxed) / n, PROF[1].load(std::sync::atomic::Ordering::Relaxed) / n, PROF[2].load(std::sync::atomic::Ordering::Relaxed) / n, n)
+}
+
 thread_local! {
     static SIM: RefCell<Option<(usize, PSim)>> = RefCell::new(None);
 }
@@ -94,12 +102,20 @@ pub fn evaluate<S: SeqSpec>(spec: &S, spec_id: usize, tag: &str, parent: &Node<S
             *s = Some((spec_id, psim_from(snap)));
         }
         let sim = &mut s.as_mut().unwrap().1;
+        let t0 = std::time::Instant::now();
         sim.restore_snapshot(snap.clone());
+        let t1 = std::time::Instant::now();
         let r = run_marked(sim, w, head, tail);
-        r.map(|obs| {
+        let t2 = std::time::Instant::now();
+        let r = r.map(|obs| {
             let chk = if obs.success { Some(spec.check_success(sim, &model, &seq, &obs.outputs, first)) } else { None };
             (obs, chk)
-        })
+        });
+        PROF[0].fetch_add((t1 - t0).as_micros() as u64, std::sync::atomic::Ordering::Relaxed);
+        PROF[1].fetch_add((t2 - t1).as_micros() as u64, std::sync::atomic::Ordering::Relaxed);
+        PROF[2].fetch_add(t2.elapsed().as_micros() as u64, std::sync::atomic::Ordering::Relaxed);
+        PROF[3].fetch_add(1, std::sync::atomic::Ordering::Relaxed);
+        r
     });
     l.eval();
     let (obs, chk) = match res {
@@ -194,10 +210,6 @@ pub fn explore<S: SeqSpec>(ctx: &Ctx, spec: &S, spec_id: usize, tag: &str, max_l
     let mut per_len = vec![];
     let mut alphabet_max = 0usize;
     for len in 1..=max_len {
-        if ctx.elapsed_s() > wall_cap_s {
-            st.capped = true;
-            break;
-        }
         let mut items: Vec<(usize, S::Op)> = vec![];
         for (i, n) in frontier.iter().enumerate() {
             let o = spec.ops(&n.model);
@@ -208,7 +220,7 @@ pub fn explore<S: SeqSpec>(ctx: &Ctx, spec: &S, spec_id: usize, tag: &str, max_l
         let block = (items.len() as u64 / (ctx.threads as u64 * 16)).clamp(1, 256);
         let aborted = std::sync::atomic::AtomicBool::new(false);
         mc_core::par_range(ctx, items.len() as u64, block, |i, l| {
-            if ctx.elapsed_s() > wall_cap_s * 1.5 + 30.0 {
+            if ctx.elapsed_s() > wall_cap_s {
                 aborted.store(true, std::sync::atomic::Ordering::Relaxed);
                 return;
             }
